@@ -1,35 +1,217 @@
-(* TableBx.v — layer B of the whole-table transformations (rstrip, optimize_width, transpose; layer-A models: Transform.v of
-   property C17).  Each of them walks the rows through FRESH wrappers, resets both wrapper caches and ends with
+(* TableBx.v — layer B of the operations whose XML effect is modelled by Transform.v (property C17), of Row.rstrip through a
+   live row handle, and of the `repeated` setter of a live column.
+
+   rstrip / optimize_width / transpose walk the rows through FRESH wrappers, reset both wrapper caches and end with
    _compute_table_cache (transpose: clear(), append_row per line, _compute_table_cache): whatever the caches held before, the
-   state afterwards is the state of a fresh parse of the new XML. *)
+   state afterwards is the state of a fresh parse of the new XML.
+   set_span reads every cell of the area with get_cell (through the cached row wrappers: caches are filled), del_span reads the
+   first cell; both then write with set_cells (= the OSetLines mutator of the C01 alphabet).
+   get_row(y, clone=False).rstrip(aggressive): the cached wrapper's XML row loses its trailing empty cells, its _rmap is
+   RECOMPUTED, its cell cache reset.
+   c = table.append_column(column); c.repeated = n  (the live column returned by append_column): with the repair of F8 the
+   owning table recomputes both maps. *)
 From Coq Require Import List ZArith Lia Bool Arith.
 Import ListNotations.
-Require Import Vault Row Table Grid Tableabs Transform Transformproof2 Transformproof4 Transformproof11 TableB TableBabs TableBproof TableBproof2 TableBproof5.
+Require Import Vault Vaultproof Row Table Grid Tableabs Tableproof5 Tableproof6 Transform Transformproof Transformproof2 Transformproof4 Transformproof11
+               TableB TableBspan TableBabs TableBproof TableBproof2 TableBproof3 TableBproof4 TableBproof5.
 Open Scope Z_scope.
 
-Inductive xop := XRstrip (aggr : bool) | XOptimizeWidth | XTranspose.
-Definition t_xform (a : calg) (t : tstate) (x : xop) : option tstate :=
-  match x with
-  | XRstrip aggr => Some (t_rstrip a aggr t)
-  | XOptimizeWidth => t_optimize_width a true t           (* None: the call raises (never on a table with rows) *)
-  | XTranspose => Some (t_transpose t)
-  end.
-Definition b_xform (a : calg) (b : bstate) (x : xop) : option bstate := option_map fresh (t_xform a (ax b) x).
-
-Theorem xform_coh a b x b' : Coh b -> b_xform a b x = Some b' ->
-  Coh b' /\ t_xform a (ax b) x = Some (ax b') /\ tcache b' = [] /\ ccache b' = [] /\ b' = reparse b'.
+(* ---- the cache-filling reads of a call, then its single write ---- *)
+Definition is_read (o : bop) : Prop := match o with BRead _ => True | _ => False end.
+Lemma reads_keep b rs : Coh b -> Forall is_read rs -> Coh (tB_run b rs) /\ ax (tB_run b rs) = ax b.
 Proof.
-  intros [Hwf _] H. unfold b_xform in H. destruct (t_xform a (ax b) x) as [t'|] eqn:E; [|discriminate].
-  cbn [option_map] in H. inversion H; subst b'. cbn [fresh ax tcache ccache].
-  assert (Hwf' : WF t').
-  { destruct x; cbn [t_xform] in E.
-    - inversion E; subst. apply (rstrip_refines a aggr (ax b) Hwf).
-    - apply (optimize_width_law a (ax b) t' Hwf E).
-    - inversion E; subst. apply (transpose_refines (ax b) Hwf). }
-  split; [apply Coh_fresh; exact Hwf'|]. repeat split.
+  revert b; induction rs as [|o rs IH]; intros b Hc Hr; [auto|]. inversion Hr as [|? ? Ho Hr']; subst.
+  destruct o as [m|q|l]; try contradiction. unfold tB_run in *. cbn [fold_left tB_step tB_step_gen].
+  destruct (b_read_spec b q Hc) as (Hc' & Ha & _). destruct (IH _ Hc' Hr') as [H1 H2]. split; [exact H1|]. now rewrite H2.
+Qed.
+Theorem reads_then_write b rs o t' : Coh b -> Forall is_read rs -> op_ok o -> t_step (ax b) o = Some t' ->
+  exists b', b_mut true (tB_run b rs) o = Some b' /\ ax b' = t' /\ Coh b'.
+Proof.
+  intros Hc Hr Hok Hs. destruct (reads_keep b rs Hc Hr) as [Hc1 Ha1].
+  destruct (b_mut_spec (tB_run b rs) o Hc1 Hok) as (b' & Hb & Hs' & Hc'). exists b'. split; [exact Hb|]. split; [|exact Hc'].
+  rewrite Ha1, Hs in Hs'. now inversion Hs'.
 Qed.
 
-(* hence after such a transformation every read answers what a fresh parse answers and what the grid answers *)
-Theorem xform_reads a b x b' q : Coh b -> b_xform a b x = Some b' ->
-  snd (b_read b' q) = snd (b_read (reparse b') q) /\ proj (snd (b_read b' q)) = gb_read (abs_t (ax b')) q.
-Proof. intros Hc H. apply live_eq_fresh. exact (proj1 (xform_coh a b x b' Hc H)). Qed.
+Section X.
+Variable a : calg.
+
+Lemma area_reads_are_reads x y z t : Forall is_read (area_reads x y z t).
+Proof.
+  unfold area_reads. apply Forall_forall. intros o Hin. apply in_flat_map in Hin. destruct Hin as (yy & _ & Hin).
+  apply in_map_iff in Hin. destruct Hin as (xx & <- & _). exact I.
+Qed.
+
+(* one call of the transformation alphabet at layer B: the new state and the boolean the call returns *)
+Definition b_xstep (b : bstate) (o : xop) : option (bstate * bool) :=
+  match o with
+  | XTranspose | XRstrip _ | XOptimize =>
+      match x_step a true (ax b) o with Some (t', r) => Some (fresh t', r) | None => None end
+  | XSetSpan x y z t m mid =>
+      if (x =? z) && (y =? t) then Some (b, false)
+      else
+        let b1 := tB_run b (area_reads x y z t) in
+        match x_step a true (ax b) o with
+        | Some (t', true) =>
+            (* the write: set_cells(cells, coord, clone=False) on the state the reads left *)
+            let cells := area_cells x y z t (ax b) in
+            let mid' := if m then merge_mid a cells else mid in
+            let cells1 := if m then merge_cells a mid' cells else cells in
+            match b_mut true b1 (OSetLines false x y (lines_of (mark_span a (z - x + 1) (t - y + 1) cells1))) with
+            | Some b' => Some (b', true) | None => None end
+        | Some (_, false) => Some (b1, false)
+        | None => None end
+  | XDelSpan x y =>
+      let b1 := tB_run b [BRead (RQ (QGetCell x y))] in
+      match x_step a true (ax b) o with
+      | Some (t', true) =>
+          let c0 := t_get_cell x y (ax b) in
+          match ca_cs a (fst c0), ca_rs a (fst c0) with
+          | Some nc, Some nr =>
+              match b_mut true b1 (OSetLines false x y (lines_of (unmark_span a (area_read x y (x + nc - 1) (y + nr - 1) (ax b))))) with
+              | Some b' => Some (b', true) | None => None end
+          | _, _ => None end
+      | Some (_, false) => Some (b1, false)
+      | None => None end
+  | XTransposeArea _ _ _ _ | XCore _ => None          (* not part of this alphabet *)
+  end.
+
+Lemma lines_of_ok (cells : list (list cell)) : Forall cells_ok (lines_of cells).
+Proof.
+  unfold lines_of. apply Forall_forall. intros l Hin. apply in_map_iff in Hin. destruct Hin as (r & <- & _).
+  unfold cells_ok, unit_runs. apply Forall_forall. intros c Hc. apply in_map_iff in Hc. destruct Hc as (c0 & <- & _). cbn [fst]. lia.
+Qed.
+
+Definition in_alphabet (o : xop) : Prop :=
+  match o with XTranspose | XRstrip _ | XOptimize | XSetSpan _ _ _ _ _ _ | XDelSpan _ _ => True | _ => False end.
+
+Theorem xstep_coh b o t' r : Coh b -> in_alphabet o -> x_step a true (ax b) o = Some (t', r) -> WF t' ->
+  exists b', b_xstep b o = Some (b', r) /\ ax b' = t' /\ Coh b'.
+Proof.
+  intros Hc Hin Hs Hwf'. destruct o as [|x y z t|aggr| |x y z t m mid|x y|o0]; try contradiction; cbn [b_xstep].
+  - rewrite Hs. exists (fresh t'). split; [reflexivity|]. split; [reflexivity|apply Coh_fresh; exact Hwf'].
+  - rewrite Hs. exists (fresh t'). split; [reflexivity|]. split; [reflexivity|apply Coh_fresh; exact Hwf'].
+  - rewrite Hs. exists (fresh t'). split; [reflexivity|]. split; [reflexivity|apply Coh_fresh; exact Hwf'].
+  - (* set_span *)
+    pose proof Hs as Hs0. cbn [x_step] in Hs. unfold t_set_span in Hs.
+    destruct ((x =? z) && (y =? t)) eqn:E1; [inversion Hs; subst; exists b; auto|]. rewrite Hs0.
+    destruct (reads_keep b (area_reads x y z t) Hc (area_reads_are_reads x y z t)) as [Hc1 Ha1].
+    destruct (existsb (existsb (fun c : cell => is_spanned a (fst c))) (area_cells x y z t (ax b))) eqn:E2.
+    + inversion Hs; subst. eexists; split; [reflexivity|]. split; [exact Ha1|exact Hc1].
+    + destruct (t_step (ax b) (OSetLines false x y _)) as [st'|] eqn:E3; [|discriminate]. inversion Hs; subst st' r.
+      destruct (reads_then_write b (area_reads x y z t) (OSetLines false x y _) t' Hc (area_reads_are_reads x y z t) (lines_of_ok _) E3) as (b' & Hb & Ha & Hc').
+      rewrite Hb. exists b'. auto.
+  - (* del_span *)
+    pose proof Hs as Hs0. cbn [x_step] in Hs. unfold t_del_span in Hs. rewrite Hs0.
+    assert (Hrd : Forall is_read [BRead (RQ (QGetCell x y))]) by (constructor; [exact I|constructor]).
+    destruct (reads_keep b _ Hc Hrd) as [Hc1 Ha1].
+    destruct (ca_cs a (fst (t_get_cell x y (ax b)))) as [nc|] eqn:Ec; [|inversion Hs; subst; eexists; split; [reflexivity|]; split; [exact Ha1|exact Hc1]].
+    destruct (ca_rs a (fst (t_get_cell x y (ax b)))) as [nr|] eqn:Er; [|inversion Hs; subst; eexists; split; [reflexivity|]; split; [exact Ha1|exact Hc1]].
+    destruct (area_read x y (x + nc - 1) (y + nr - 1) (ax b)) as [|[|c0 r0] rs] eqn:Ea; try discriminate.
+    destruct (t_step (ax b) (OSetLines false x y _)) as [st'|] eqn:E3; [|discriminate]. inversion Hs; subst st' r.
+    destruct (reads_then_write b _ (OSetLines false x y _) t' Hc Hrd (lines_of_ok _) E3) as (b' & Hb & Ha & Hc').
+    rewrite Hb. exists b'. auto.
+Qed.
+
+(* the span steps are the steps `for a given content` of TableBspan (what the checker of C02 evaluates), at the content C17's model writes *)
+Theorem xstep_set_span_given b x y z t m mid b' r : b_xstep b (XSetSpan x y z t m mid) = Some (b', r) ->
+  exists cells, b_set_span_given x y z t r cells b = Some b'.
+Proof.
+  cbn [b_xstep]. unfold b_set_span_given, b_span_write. destruct ((x =? z) && (y =? t)); [intros H; inversion H; subst; exists []; reflexivity|].
+  destruct (x_step a true (ax b) _) as [[t' [|]]|]; try discriminate.
+  - match goal with |- match b_mut true _ (OSetLines false x y (lines_of ?c)) with _ => _ end = _ -> _ => exists c end.
+    destruct (b_mut true _ _) as [b2|]; [|discriminate]. inversion H; subst. reflexivity.
+  - intros H; inversion H; subst. exists []. reflexivity.
+Qed.
+Theorem xstep_del_span_given b x y b' r : b_xstep b (XDelSpan x y) = Some (b', r) ->
+  exists cells, b_del_span_given x y r cells b = Some b'.
+Proof.
+  cbn [b_xstep]. unfold b_del_span_given, b_span_write.
+  destruct (x_step a true (ax b) _) as [[t' [|]]|]; try discriminate.
+  - destruct (ca_cs a _) as [nc|]; [|discriminate]. destruct (ca_rs a _) as [nr|]; [|discriminate].
+    match goal with |- match b_mut true _ (OSetLines false x y (lines_of ?c)) with _ => _ end = _ -> _ => exists c end.
+    destruct (b_mut true _ _) as [b2|]; [|discriminate]. inversion H; subst. reflexivity.
+  - intros H; inversion H; subst. exists []. reflexivity.
+Qed.
+End X.
+
+(* rstrip / optimize_width / transpose: the state afterwards is its own reparse, the caches are empty *)
+Theorem xform_fresh a b o b' r : b_xstep a b o = Some (b', r) ->
+  match o with XTranspose | XRstrip _ | XOptimize => tcache b' = [] /\ ccache b' = [] /\ b' = reparse b' | _ => True end.
+Proof.
+  intros H. destruct o; try exact I; cbn [b_xstep] in H; destruct (x_step a true (ax b) _) as [[t' r']|]; try discriminate;
+    inversion H; subst; repeat split.
+Qed.
+
+(* ---- Row.rstrip through a live row handle ---- *)
+Definition b_live_rstrip (a : calg) (aggr : bool) (y : Z) (b : bstate) : option bstate :=
+  let y := bny y b in
+  if bheight b <=? y then Some b
+  else match get_wrap y b with
+       | None => None
+       | Some (i, w, b1) =>
+         match wrap_row w (ax b1) with
+         | None => None
+         | Some (rep, (st, cs)) =>
+           let cs' := row_rstrip a aggr cs in
+           let w' := {| w_pos := w_pos w; w_rmap := cmap cs'; w_cells := [] |} in
+           Some {| ax := {| cols := cols (ax b1); rows := set_nth (Z.to_nat (w_pos w)) (rep, (st, cs')) (rows (ax b1)) |};
+                   tmapB := tmapB b1; cmapB := cmapB b1; tcache := upsertn i w' (tcache b1); ccache := ccache b1 |}
+         end
+       end.
+Theorem live_rstrip_coh a aggr y b : Coh b -> exists b', b_live_rstrip a aggr y b = Some b' /\ Coh b'.
+Proof.
+  intros Hc. pose proof Hc as [Hwf Hm]. pose proof Hwf as [[Hwr Hwc] Hcw]. unfold b_live_rstrip.
+  rewrite (bny_coh b _ Hm), (bheight_coh b Hm).
+  assert (Hny : 0 <= ny y (ax b)) by (apply norm_coord_nonneg, theight_nonneg).
+  destruct (Z.leb_spec (theight (ax b)) (ny y (ax b))) as [Hout|Hin]; [exists b; auto|].
+  assert (Hyb : 0 <= ny y (ax b) < bheight b) by (rewrite (bheight_coh b Hm); lia).
+  destruct (get_wrap_coh b _ Hc Hyb) as (i & w & b1 & rrep & st & cs & Hgw & Hfi & Hnth & Hrat & Hok & Hlk & Hax & Htm & Hcm & Hccq & Hc1).
+  rewrite Hgw. rewrite <- Hax in Hok, Hnth.
+  destruct (wrap_row_ok (ax b1) i w rrep st cs Hok Hnth) as (Hr & Hrm & Hk & Hp). rewrite Hr, Hp.
+  eexists; split; [reflexivity|].
+  assert (Hwcs : wf cs) by (rewrite Hax in Hnth; exact (cwf_nth _ _ _ _ _ Hcw Hnth)).
+  assert (Hwcs' : wf (row_rstrip a aggr cs)) by (apply wf_strip_end; exact Hwcs).
+  assert (Hi : (i < length (rows (ax b1)))%nat) by (apply nth_error_Some; congruence).
+  pose proof Hc1 as [_ (Ht1 & Hcq1 & Htc1 & Hcc1)].
+  split.
+  - rewrite Hax. rewrite Hax in Hnth. split; [split; [|exact Hwc]|]; cbn [ax rows cols].
+    + apply Forall_set_nth; [exact Hwr|]. cbn [fst]. exact (wf_nth _ _ _ _ Hwr Hnth).
+    + unfold cwf. cbn [rows]. apply Forall_set_nth; [exact Hcw|]. cbn [snd]. exact Hwcs'.
+  - unfold CohM; cbn [ax tmapB cmapB tcache ccache cols rows].
+    split; [rewrite Ht1; apply cmap_reps; symmetry; apply (map_fst_set_nth i rrep (st, cs) (st, row_rstrip a aggr cs)); exact Hnth|].
+    split; [exact Hcq1|]. split; [|exact Hcc1].
+    apply (Forall_upsertn' (wrap_ok (ax b1))); [| |exact Htc1].
+    + exists rrep, st, (row_rstrip a aggr cs). cbn [fst snd rows w_pos w_rmap w_cells].
+      split; [apply nth_error_set_nth_same; exact Hi|]. split; [|split; [reflexivity|constructor]].
+      destruct Hok as (? & ? & ? & _ & Hpp & _). exact Hpp.
+    + intros kv Hne Hkv. apply (wrap_ok_ext (ax b1)); [|exact Hkv]. cbn [rows]. apply nth_error_set_nth_other; assumption.
+Qed.
+
+(* ---- c = table.append_column(Column(repeated=rep, style=st)); c.repeated = n ---- *)
+Definition b_live_column (rep : nat) (st : Z) (n : nat) (b : bstate) : bstate :=
+  let t' := {| cols := cols (ax b) ++ [(Nat.max 1 n, st)]; rows := rows (ax b) |} in
+  {| ax := t'; tmapB := cmap (rows t'); cmapB := cmap (cols t'); tcache := tcache b; ccache := ccache b |}.
+Theorem live_column_coh rep st n b : Coh b -> Coh (b_live_column rep st n b) /\ ax (b_live_column rep st n b) = t_append_column n st (ax b).
+Proof.
+  intros [[[Hwr Hwc] Hcw] (Ht & Hcq & Htc & Hcc)]. split; [|reflexivity]. split.
+  - split; [split; [exact Hwr|]|exact Hcw]. cbn [b_live_column ax cols]. apply Forall_app. split; [exact Hwc|]. constructor; [cbn [fst]; lia|constructor].
+  - unfold CohM, b_live_column; cbn [ax tmapB cmapB tcache ccache cols rows]. repeat split; auto.
+    eapply keys_ok_mono; [|exact Hcc]. rewrite app_length. lia.
+Qed.
+
+(* the three whole-table transformations need no side condition: WF of the new XML is C17's theorem *)
+Theorem xform_coh a b o t' r : Coh b -> match o with XTranspose | XRstrip _ | XOptimize => True | _ => False end ->
+  x_step a true (ax b) o = Some (t', r) ->
+  exists b', b_xstep a b o = Some (b', r) /\ ax b' = t' /\ Coh b' /\ tcache b' = [] /\ ccache b' = [] /\ b' = reparse b'.
+Proof.
+  intros Hc Ho Hs. pose proof Hc as [Hwf _].
+  assert (Hwf' : WF t').
+  { destruct o; try contradiction; cbn [x_step] in Hs.
+    - inversion Hs; subst. apply (transpose_refines (ax b) Hwf).
+    - inversion Hs; subst. apply (rstrip_refines a aggr (ax b) Hwf).
+    - destruct (t_optimize_width a true (ax b)) as [t1|] eqn:E; [|discriminate]. inversion Hs; subst.
+      apply (optimize_width_law a (ax b) t' Hwf E). }
+  assert (Hin : in_alphabet o) by (destruct o; try contradiction; exact I).
+  destruct (xstep_coh a b o t' r Hc Hin Hs Hwf') as (b' & Hb & Ha & Hc'). exists b'. split; [exact Hb|]. split; [exact Ha|]. split; [exact Hc'|].
+  pose proof (xform_fresh a b o b' r Hb) as Hf. destruct o; try contradiction; exact Hf.
+Qed.
